@@ -3,8 +3,8 @@
 # Confirms, in a scratch worktree of /repo (removed afterwards): demo passes on the clean tree, fails with the patch,
 # and the unedited test suite gives the baseline result with the patch applied.
 prop=$1; k=$2; src=$3
-wt=/tmp/confirm-$prop-$k
-out=/verif/seeded/$prop-$k
+tag=${TAG:-}; wt=/tmp/confirm-$prop-$tag$k
+out=/verif/seeded/$prop-$tag$k
 git -C /repo worktree remove --force $wt 2>/dev/null
 git -C /repo worktree add -q --detach $wt HEAD || exit 2
 cd $wt
@@ -13,11 +13,11 @@ run_demo() { (cd /tmp && PYTHONPATH=$wt/src timeout 600 /venv/bin/python $src/de
 clean_rc=$(run_demo)
 patch -p1 -s < $src/patch.diff || { echo "patch does not apply"; cd /; git -C /repo worktree remove --force $wt; exit 2; }
 mut_rc=$(run_demo)
-PYTHONPATH=$wt/src /venv/bin/python -m pytest -q -p no:cacheprovider -n 6 --timeout=900 --continue-on-collection-errors 2>&1 | grep -E "^FAILED|^ERROR|passed|failed" | sed 's/ - .*//' | sort > /tmp/confirm-$prop-$k.txt
-tail_line=$(grep -E "passed" /tmp/confirm-$prop-$k.txt | tail -1 | sed 's/ in [0-9.]*s.*//')
-grep -E "^FAILED|^ERROR" /tmp/confirm-$prop-$k.txt > /tmp/confirm-$prop-$k.failed
+PYTHONPATH=$wt/src /venv/bin/python -m pytest -q -p no:cacheprovider -n 6 --timeout=900 --continue-on-collection-errors 2>&1 | grep -E "^FAILED|^ERROR|passed|failed" | sed 's/ - .*//' | sort > /tmp/confirm-$prop-$tag$k.txt
+tail_line=$(grep -E "passed" /tmp/confirm-$prop-$tag$k.txt | tail -1 | sed 's/ in [0-9.]*s.*//')
+grep -E "^FAILED|^ERROR" /tmp/confirm-$prop-$tag$k.txt > /tmp/confirm-$prop-$tag$k.failed
 same=no
-if diff -q /tmp/confirm-$prop-$k.failed /verif/seeded/.baseline_failed.txt >/dev/null; then same=yes; fi
+if diff -q /tmp/confirm-$prop-$tag$k.failed /verif/seeded/.baseline_failed.txt >/dev/null; then same=yes; fi
 git checkout -q -- . ; git clean -fdq
 cd /; git -C /repo worktree remove --force $wt
 mkdir -p $out
@@ -25,7 +25,7 @@ cp $src/patch.diff $out/patch.diff; cp $src/demo.py $out/demo.py; [ -f $src/note
 python3 - "$prop" "$k" "$clean_rc" "$mut_rc" "$tail_line" "$same" "$out" <<'PY'
 import json,sys,subprocess
 prop,k,clean_rc,mut_rc,tail,same,out=sys.argv[1:8]
-meta={"property":prop,"seed":int(k),
+meta={"property":prop,"seed":int(k),"round":2 if "r2" in out else 1,
  "repo_commit":subprocess.run(["git","-C","/repo","log","-1","--format=%h"],capture_output=True,text=True).stdout.strip(),
  "demo_exit_clean_tree":int(clean_rc),"demo_exit_with_patch":int(mut_rc),
  "suite_with_patch":tail,"suite_failing_set_equals_baseline":same=="yes",
@@ -35,4 +35,4 @@ meta={"property":prop,"seed":int(k),
 json.dump(meta,open(out+"/meta.json","w"),indent=1)
 print(prop,k,"confirmed" if meta["confirmed"] else "NOT CONFIRMED",clean_rc,mut_rc,tail,same)
 PY
-rm -f /tmp/confirm-$prop-$k.txt /tmp/confirm-$prop-$k.failed
+rm -f /tmp/confirm-$prop-$tag$k.txt /tmp/confirm-$prop-$tag$k.failed
